@@ -25,9 +25,10 @@ def impl(op, names):
         return "err other:" + type(e).__name__
 
 
-def impl_apply(names):
+def impl_apply(names, via="identifiers"):
     """acceptance part of preproc.apply, run on a tiny synthetic curve so that accepted lists
-    really execute (options are left at their defaults)."""
+    really execute (options are left at their defaults); `via`: positional / keyword `identifiers`, the
+    deprecated keyword `preproc_names`, or the public Indentation.apply_preprocessing"""
     from curves import tiny_curve
     import warnings
     idnt = tiny_curve()
@@ -35,7 +36,14 @@ def impl_apply(names):
     try:
         with warnings.catch_warnings():
             warnings.simplefilter("ignore")
-            preproc.apply(idnt, list(names), options={})
+            if via == "identifiers":
+                preproc.apply(idnt, list(names), options={})
+            elif via == "preproc_names":
+                preproc.apply(idnt, preproc_names=list(names), options={})
+            elif via == "keyword":
+                preproc.apply(apret=idnt, identifiers=list(names), options={})
+            else:
+                idnt.apply_preprocessing(list(names), options={})
         return "ok"
     except KeyError:
         return "err KeyError"
@@ -156,6 +164,15 @@ def run(ctx):
     for s in sels + extra:
         exp_ok = all(p in steps for p in s) and all(r in s[:i] for i, p in enumerate(s) if p in req
                                                     for r in req[p])
+        # every way of handing the list in gives the same verdict
+        for via in ("preproc_names", "keyword", "indentation"):
+            if len(s) <= 3 or sum(map(len, s)) % 7 == 0:
+                g2 = impl_apply(s, via=via)
+                if (g2 == "ok") != exp_ok:
+                    ctx.violation(f"apply-accept-via-{via}:{','.join(s)}",
+                                  f"the list {s} handed in through '{via}' is {'accepted' if g2 == 'ok' else 'rejected'} "
+                                  f"but the required-earlier rule says {'accept' if exp_ok else 'reject'}",
+                                  {"input": {"steps": s, "via": via}, "observed": g2})
         got = impl_apply(s)
         if (got == "ok") != exp_ok:
             ctx.violation(f"apply-accept:{','.join(s)}",
